@@ -6,6 +6,7 @@ Streams
   cd   correct_dst closure + np.array      through HourlyModel._get_feature_matrices         vs Dst.feature_matrix
   td   _transform_dst                      real function                                     vs Dst.transform_dst
   ts   the commented insert/delete loop    text taken from the source file and executed      vs Dst.transform_spec
+  ex   correct_dst -> _transform_dst chain  goes through / fails on random clock patterns     vs Dst.pattern_ok (exact guard)
   ci   _get_contiguous_datetime            index of HourlyReportingData(...).df              vs Dst.contiguous_index
   hp   HourlyModel.predict                 outcome (rows / index kept / exception class)     vs Dst.hourly_predict
   dp   DailyModel / BillingModel.predict   row accounting and finiteness pattern             vs PredictRows.daily_predict
@@ -48,6 +49,7 @@ CASE_TYPE = {
     "ci": "(Z * Z * list Z)%type",
     "hp": "(policy * list cday * outcome)%type",
     "dp": "(bool * nat * list dcase_row * list (Z * bool))%type",
+    "ex": "(list daykind * bool)%type",
 }
 
 POLICY = "(policy_of false false)"      # behaviour of the implementation on the probes (set in main)
@@ -977,7 +979,7 @@ def diagnose(run, stream, term):
           "hp": "let '(p, d, _) := c in hourly_outcome p (map expand d)",
           "cd": "let '(a, i, _) := c in feature_matrix zmean a i", "td": "let '(p, i, _) := c in transform_dst zmean p i",
           "ts": "let '(p, i, _) := c in transform_spec zmean p i", "ci": "let '(s, e, _) := c in contiguous_index s e",
-          "dp": "let '(o, n, r, _) := c in daily_out o n r"}[stream]
+          "dp": "let '(o, n, r, _) := c in daily_out o n r", "ex": "pattern_ok (fst c)"}[stream]
     return run.coq_eval(IMPORTS, "Definition c : %s := %s." % (CASE_TYPE[stream], term), fn)[-1200:]
 
 
@@ -1137,6 +1139,15 @@ def process_patterns(run, st, rng, pats):
                 st.outside("td", {"pattern": pat}, o)
             else:
                 st.add("td", "(%s, %s, %s)" % (coq_zlist(pred), coq_idx(idx), t), {"pattern": pat, "pred": pred, "impl": o})
+        # ex: does the chain go through on the implementation?  (unperturbed patterns only) — compared with pattern_ok
+        if u >= 0.3 and not clash(pat):
+            ok_cd = "ok2" in obs and all(len(r) == 24 for r in obs["ok2"][0])
+            o_td = impl_td(pred, idx) if ok_cd else None
+            went = bool(ok_cd and "ok" in o_td and len(o_td["ok"]) == sum(lens))
+            run.count(("ex", key), nontriv)
+            run.dist("chain_goes_through", went)
+            st.add("ex", "(%s, %s)" % (coq_list([{"R": "Reg", "S": "Short %d" % h, "L": "Long %d" % h}[k] for k, h in pat]),
+                                       coq_bool(went)), {"pattern": pat, "impl_went_through": went})
         # ts: the commented loop of the source
         o = impl_ts(pred, idx)
         if o is not None:
